@@ -34,6 +34,8 @@ type Config[W any, O any] struct {
 	AfterLevel func()
 	// Seen may be shared between several BFS runs (different roots).
 	Seen map[string]bool
+	// RootFilter, when set, restricts the operations tried from the initial state (process sharding).
+	RootFilter func(i int, o O) bool
 }
 
 func BFS[W any, O any](c Config[W, O]) Stats {
@@ -80,7 +82,10 @@ func BFS[W any, O any](c Config[W, O]) Stats {
 					if k != "" {
 						continue
 					}
-					for _, o := range c.Enabled(w) {
+					for oi, o := range c.Enabled(w) {
+						if len(path) == 0 && c.RootFilter != nil && !c.RootFilter(oi, o) {
+							continue
+						}
 						np := append(append([]O{}, path...), o)
 						nw, k, desc := c.Build(wi, np)
 						cs := ""
@@ -118,6 +123,9 @@ func BFS[W any, O any](c Config[W, O]) Stats {
 		st.DepthCompleted = depth + 1
 		if c.AfterLevel != nil {
 			c.AfterLevel()
+		}
+		if len(frontier) == 0 {
+			st.DepthCompleted = c.Depth // no new state: every longer sequence stays inside the explored set
 		}
 	}
 	return st
